@@ -58,6 +58,17 @@ impl DirectoryPackCreator {
     pub fn finalize(self) -> std::io::Result<FinalizedDirectoryPackCreator> {
         info!("======= Finalize creation =======");
 
+        // The value store count (and a value store index) is stored in one byte.
+        if self.value_stores.len() > u8::MAX as usize {
+            return Err(std::io::Error::new(
+                std::io::ErrorKind::InvalidInput,
+                format!(
+                    "Too many value stores in the directory pack ({}, maximum is 255)",
+                    self.value_stores.len()
+                ),
+            ));
+        }
+
         info!("----- Finalize value_stores -----");
         for (idx, value_store) in &mut self.value_stores.iter().enumerate() {
             value_store.finalize(ValueStoreIdx::from(idx as u8));
